@@ -152,6 +152,10 @@ type Req struct {
 	RespFullStep int
 	Produced     []ProducedBatch
 	Note         string
+	// BrokerRange is the [min,max] version range the broker advertised for
+	// this API when the request arrived (a broker may be restarted with
+	// another table later in the run)
+	BrokerRange [2]int16
 }
 
 // ProducedBatch records what a produce request did to one partition.
@@ -404,6 +408,10 @@ func (b *Broker) OnData(c *Conn) {
 		c.Consume(4 + sz)
 		r := &Req{Idx: len(b.C.Journal), Step: b.C.S.Step, At: b.C.S.Now(), Broker: b.ID, Conn: c, Frame: frame, RespAt: -1}
 		r.Hdr, r.API, r.Body, r.DecodeErr = rc.DecodeRequest(frame)
+		r.BrokerRange = b.Versions[r.Hdr.APIKey]
+		if b.C.S.traceOn && r.API != nil {
+			b.C.S.Tracef("b%d c%d <- %s v%d #%d (advertised %v)", b.ID, c.ID, r.API.Name, r.Hdr.APIVersion, r.Hdr.CorrelationID, r.BrokerRange)
+		}
 		b.C.Journal = append(b.C.Journal, r)
 		st.reqs++
 		st.queue = append(st.queue, r)
